@@ -109,7 +109,8 @@ func mergeTransportSocketCluster(c *cluster.Cluster, cp *model.EnvoyFilterConfig
 	// This means either there is a name mismatch or cluster does not have transport socket matches/transport socket.
 	// We cannot do a deep merge. Instead just replace the transport socket
 	if ts == nil {
-		c.TransportSocket = cpValueCast.TransportSocket
+		// Clone: cp.Value is shared push context state; a later patch may deep-merge into c.TransportSocket.
+		c.TransportSocket = proto.Clone(cpValueCast.TransportSocket).(*core.TransportSocket)
 	} else {
 		// Merge the patch and the cluster at a lower level
 		dst := ts.GetTypedConfig()
